@@ -261,28 +261,7 @@ func (mh *mainHandler) handle(w http.ResponseWriter, r *http.Request) error {
 		return nil
 	}
 
-	// Check authentication.
-	apiRequest.AuthToken = authenticateRequest(lrw, r, handler, readMethod)
-	if apiRequest.AuthToken == nil {
-		// Authenticator already replied.
-		return nil
-	}
-
-	// Wait for the owning module to be ready.
-	if moduleHandler, ok := handler.(ModuleHandler); ok {
-		if !moduleIsReady(moduleHandler.BelongsTo()) {
-			http.Error(lrw, "The API endpoint is not ready yet. Reload (F5) to try again.", http.StatusServiceUnavailable)
-			return nil
-		}
-	}
-
-	// Check if we have a handler.
-	if handler == nil {
-		http.Error(lrw, "Not found.", http.StatusNotFound)
-		return nil
-	}
-
-	// Format panics in handler.
+	// Format panics in the authenticator and the handler.
 	defer func() {
 		if panicValue := recover(); panicValue != nil {
 			// Report failure via module system.
@@ -304,6 +283,27 @@ func (mh *mainHandler) handle(w http.ResponseWriter, r *http.Request) error {
 			}
 		}
 	}()
+
+	// Check authentication.
+	apiRequest.AuthToken = authenticateRequest(lrw, r, handler, readMethod)
+	if apiRequest.AuthToken == nil {
+		// Authenticator already replied.
+		return nil
+	}
+
+	// Wait for the owning module to be ready.
+	if moduleHandler, ok := handler.(ModuleHandler); ok {
+		if !moduleIsReady(moduleHandler.BelongsTo()) {
+			http.Error(lrw, "The API endpoint is not ready yet. Reload (F5) to try again.", http.StatusServiceUnavailable)
+			return nil
+		}
+	}
+
+	// Check if we have a handler.
+	if handler == nil {
+		http.Error(lrw, "Not found.", http.StatusNotFound)
+		return nil
+	}
 
 	// Handle with registered handler.
 	handler.ServeHTTP(lrw, r)
